@@ -12,7 +12,8 @@ RULE = ('generated clusters (2-5 instances, clock and tick phase offsets, inacti
         'entry point, evaluated around every periodic check (completeness: late => not active any more; accuracy: '
         'RUNNING -> FAILED only if late, XML-RPC failure in the episode, or peer restarted), FAILED gone after one '
         'complete periodic task, ISOLATED iff auto_fence and Master in a working state, processes of the lost peer '
-        'FATAL and not listed there, every peer state change on the documented graph and equal to the status API; '
+        'FATAL and not listed there, every peer state change on the documented graph and equal to the status API, a peer restarted quicker than '
+        'the detection delay leaves the episode of its previous incarnation within two local ticks of its first TICK; '
         'non-trivial = at least one peer declared FAILED and one invalidation with lost processes checked or one '
         'silent peer seen at a periodic check; distinct = distinct membership shapes')
 ASSUMPTIONS = ['simulated transport and OS layer (DESIGN.md 2.1) are faithful; message delays below one tick period',
